@@ -8,7 +8,8 @@ import json, os, re, subprocess, sys, threading, concurrent.futures as cf
 vseed = sys.argv[1]
 jobs = int(sys.argv[2]) if len(sys.argv) > 2 else 3
 rx = re.compile(sys.argv[3]) if len(sys.argv) > 3 else None
-OUT = "/verif/seeded/robustness.json"
+HOME = os.environ.get("VERIF_HOME", "/verif")
+OUT = HOME + "/seeded/robustness.json"
 lock = threading.Lock()
 res = json.load(open(OUT)) if os.path.exists(OUT) else {}
 
@@ -16,7 +17,7 @@ res = json.load(open(OUT)) if os.path.exists(OUT) else {}
 def run(sid, only):
     env = dict(os.environ, VERIF_SEED=vseed)
     prop = sid.split("-")[0]
-    cmd = ["/verif/seedrun.sh", sid] + (["--only", "^%s$" % only] if only else [])
+    cmd = [HOME + "/seedrun.sh", sid] + (["--only", "^%s$" % only] if only else [])
     for attempt in range(3):
         p = subprocess.run(cmd, env=env, stdout=subprocess.PIPE, stderr=subprocess.STDOUT, text=True)
         if p.returncode in (0, 1):
@@ -25,7 +26,7 @@ def run(sid, only):
 
 
 def one(sid):
-    m = json.load(open("/verif/seeded/%s/meta.json" % sid))
+    m = json.load(open(HOME + "/seeded/%s/meta.json" % sid))
     prop = m["property"]
     v = m["checks"].get(prop, {})
     test = None
@@ -49,8 +50,8 @@ def one(sid):
 
 
 todo = []
-for d in sorted(os.listdir("/verif/seeded")):
-    mp = "/verif/seeded/%s/meta.json" % d
+for d in sorted(os.listdir(HOME + "/seeded")):
+    mp = HOME + "/seeded/%s/meta.json" % d
     if not os.path.exists(mp) or (rx and not rx.search(d)):
         continue
     m = json.load(open(mp))
